@@ -1,9 +1,9 @@
 (* C03: no premature verdicts.  The statement is the "definitive" clause of the one-step
    property ExtOK (first theorem), discharged for the same parsers as C02 (every buffer, suffix,
-   offset and object state).  PARTIAL: ParseFLine, ParseHdrLine, ParseHeaders, ParseAllURIParams,
+   offset and object state).  PARTIAL: ParseHdrLine, ParseHeaders, ParseAllURIParams,
    ParseAllURIHdrs and the message parser are carried by the correspondence run and the
    extension oracle only. *)
-From Sipsp Require Import Harness Resume Ext ExtLeaf ExtCSeq ExtTok ExtNameAddr ExtNested ExtLists.
+From Sipsp Require Import Harness Resume Ext ExtLeaf ExtCSeq ExtTok ExtNameAddr ExtNested ExtLists ExtFLine.
 Theorem C03_definitive_results_are_final :
   forall (S : Type) (P : list byte -> N -> S -> res S) (obs : S -> list Z) (Inv : N -> S -> Prop),
   ExtOK P obs Inv ->
@@ -50,3 +50,7 @@ Proof. exact (fun b x k s0 o e s => no_premature_verdict _ _ _ pais_ExtOK b x k 
 Theorem C03_token_param : forall flags (Hie : tf_ie (tp_decode flags) = false), forall b x k s0 o e s, k <= nnat (length b) ->
   (parse_tokparam flags) b k s0 = Done o e s -> e <> EMore -> req obs_tokparam ((parse_tokparam flags) (b ++ x) k s0) (Done o e s).
 Proof. exact (fun flags Hie b x k s0 o e s => no_premature_verdict _ _ _ (tokparam_ExtOK flags Hie) b x k s0 o e s I). Qed.
+
+Theorem C03_first_line : forall b x k s0 o e s, k <= nnat (length b) ->
+  parse_fline b k s0 = Done o e s -> e <> EMore -> req obs_fline (parse_fline (b ++ x) k s0) (Done o e s).
+Proof. exact (fun b x k s0 o e s => no_premature_verdict _ _ _ fline_ExtOK b x k s0 o e s I). Qed.
